@@ -1,14 +1,8 @@
 (* Model of libwifi_get_tag_name: the switch table as translated from the source (Gen/Tables.v). *)
 From Coq Require Import List ZArith String.
-From LW Require Import Gen.Tables.
+From LW Require Import Base.Sweep Gen.Tables.
 Import ListNotations.
 Local Open Scope Z_scope.
-
-Fixpoint lookup_z {A} (z : Z) (l : list (Z * A)) : option A :=
-  match l with
-  | [] => None
-  | (k, v) :: r => if k =? z then Some v else lookup_z z r
-  end.
 
 (* the C argument is an int: the model takes any integer *)
 Definition get_tag_name (z : Z) : string :=
